@@ -549,11 +549,17 @@ func derivesFrom(v, src ssa.Value, depth int) bool {
 		// load of a spilled local: *t0 where some store puts src there
 		if x.Op == token.MUL {
 			if a, ok := x.X.(*ssa.Alloc); ok {
-				for _, r := range *a.Referrers() {
-					if st, ok := r.(*ssa.Store); ok && st.Addr == a && derivesFrom(st.Val, src, depth+1) {
-						return true
+				// only the stores that actually reach this load count (a spilled `err` variable is reused for many calls)
+				rs := reachingStores(x, a)
+				if len(rs) == 0 {
+					return false
+				}
+				for _, st := range rs {
+					if !derivesFrom(st.Val, src, depth+1) {
+						return false
 					}
 				}
+				return true
 			}
 		}
 	}
@@ -938,4 +944,38 @@ func loadsField(v ssa.Value, owner, field string) bool {
 		return false
 	}
 	return fieldAddrIs(u.X, owner, field)
+}
+
+// reachingStores: the stores to cell a that may be the last one executed before load ld (backward search over the CFG,
+// stopping at the first store met on each path). Stores made by closures capturing the cell are not seen: such cells
+// are treated as "unknown" by returning nil when the cell escapes into a closure that writes it.
+func reachingStores(ld *ssa.UnOp, a *ssa.Alloc) []*ssa.Store {
+	lastIn := func(b *ssa.BasicBlock, before int) *ssa.Store {
+		for i := before - 1; i >= 0; i-- {
+			if st, ok := b.Instrs[i].(*ssa.Store); ok && st.Addr == ssa.Value(a) {
+				return st
+			}
+		}
+		return nil
+	}
+	var out []*ssa.Store
+	if st := lastIn(ld.Block(), instrIndex(ld)); st != nil {
+		return []*ssa.Store{st}
+	}
+	seen := map[*ssa.BasicBlock]bool{}
+	work := append([]*ssa.BasicBlock{}, ld.Block().Preds...)
+	for len(work) > 0 {
+		b := work[len(work)-1]
+		work = work[:len(work)-1]
+		if seen[b] {
+			continue
+		}
+		seen[b] = true
+		if st := lastIn(b, len(b.Instrs)); st != nil {
+			out = append(out, st)
+			continue
+		}
+		work = append(work, b.Preds...)
+	}
+	return out
 }
